@@ -276,6 +276,49 @@ def r01_1(run, model):
     run.floor("None-producing sites in lowering", n, 40)
 
 
+KEEP_FILES = ("crates/compiler/src/compile_match.rs", "crates/compiler/src/mono.rs", "crates/compiler/src/lift.rs", "crates/compiler/src/anf.rs",
+              "crates/compiler/src/go/dce.rs", "crates/compiler/src/go/compile.rs")
+KEEP_LEDGER = {
+    ("gen_type_definition", "goenv.structs()"): "generic struct templates have no Go declaration; their instances are declared",
+    ("gen_type_definition", "goenv.enums()"): "generic enum templates have no Go declaration; their instances are declared",
+}
+
+
+def r01_5(run, model, only_files=None):
+    run.rule("R01.5", "rebuild loops of the IR passes keep every element: a `for` that accumulates its result with a push/insert/extend at the "
+                      "top level of its body has no `continue` before that statement (match arms, switch cases, rows, statements are never "
+                      "skipped); expected count zero in the pass files, ledgered exceptions, positive control elsewhere in the compiler")
+    ctrl = 0
+    n = 0
+    for f in model.fns():
+        if f.body is None or not f.file.startswith("crates/compiler/src/") or "/tests/" in f.file or "/pprint/" in f.file:
+            continue
+        for loop in S.find(f.body, "For"):
+            stmts = loop["body"]["stmts"]
+            pushes = [st for st in stmts if st["k"] == "ExprStmt" and st["expr"]["k"] == "MethodCall" and st["expr"]["method"] in ("push", "insert", "extend", "push_back")]
+            if not pushes:
+                continue
+            last = pushes[-1]
+            inner = list(S.find(loop["body"], "For", "While", "Loop"))
+            conts = [x for x in S.walk_no_closures(loop["body"]) if x["k"] == "Continue" and (x["sp"][0], x["sp"][1]) < (last["sp"][0], last["sp"][1])
+                     and not any(S.span_contains(l2["sp"], x["sp"]) for l2 in inner)]
+            if f.file not in KEEP_FILES:
+                ctrl += 1 if conts else 0
+                continue
+            if only_files is not None and f.file not in only_files:
+                continue
+            n += 1
+            it = S.norm_ws(run.facts.text(f.file, loop["iter"]["sp"]))
+            acc = S.norm_ws(run.facts.text(f.file, last["expr"]["recv"]["sp"]))
+            led = KEEP_LEDGER.get((f.name, it))
+            ok = not conts or led is not None
+            run.ob("R01.5", f"{f.name}|loop over {it[:40]} into {acc[:24]} keeps every element" if ok else f"{f.name}|loop over {it[:40]} into {acc[:24]} skips elements", ok, site(f.file, loop["sp"]),
+                   f"{len(conts)} `continue` before `{acc}.{last['expr']['method']}(..)`" + (f"; ledger: {led}" if led and conts else ""),
+                   witness="a match arm / switch case / row that is skipped while rebuilding: the value it handled falls through to the default or to nothing")
+    run.floor("accumulating loops in the IR passes", n, 40 if only_files is None else 8)
+    run.floor("positive control: loops with a skip before the push elsewhere in the compiler", ctrl, 8)
+
+
 def run(run, model):
     trs = P.discover(model, include_pprint=True)
     run.anchor("IR traversals discovered", f"{len(trs)} (function, enum) matches with >=5 explicit variants")
@@ -283,6 +326,7 @@ def run(run, model):
     run.try_rule(r01_3, model, trs)
     run.try_rule(r01_4, model, trs)
     run.try_rule(r01_1, model)
+    run.try_rule(r01_5, model)
     run.try_rule(c09.r09_1, model)
     run.try_rule(c09.r09_3, model)
     run.try_rule(c06.r06_2, model)
@@ -299,7 +343,7 @@ def run(run, model):
         mir = None
     if mir is not None:
         run.try_rule(c06.r06_1, model, mir)
-    for fn_ in (c06.r06_3, c06.r06_4, c06.r06_5, c06.r06_9, c07.r07_1, c07.r07_2, c07.r07_3, c07.r07_4, c07.r07_5, c07.r07_6,
+    for fn_ in (c06.r06_3, c06.r06_4, c06.r06_5, c06.r06_9, c07.r07_1, (lambda r, m: c07.r07_2(r, m, None, "C01")), c07.r07_3, c07.r07_4, c07.r07_5, c07.r07_6,
                 c08.r08_1, c08.r08_2, c08.r08_3, c09.r09_2, c09.r09_4, c09.r09_5, c10.r10_3, c02.r02_8):
         run.try_rule(fn_, model)
     run.assume("pipeline::compile returns the AST only when lowering pushed no error, so a None after push_error cannot reach later stages")
